@@ -193,6 +193,10 @@ def run(ctx, run):
     _flush_then_restore(ctx, run)
     _reset_keeps_slot(ctx, run)
     _network_wiped_only_unidentified(ctx, run)
+    # second-occurrence reporting of the network packets: a change of the call letters re-arms the name
+    # comparison (rule shared with C13)
+    from . import C13
+    C13._call_letters_rearm(ctx, run)
 
 
 def _canon(f, node):
